@@ -14,7 +14,7 @@ import (
 func init() {
 	register(&Rule{Name: "GUARD-UPDATE", Floor: 7, Run: ruleGuardUpdate,
 		Doc: "each `return true` of the regeneration decision is reached under exactly the condition of the decision table (all: unconditionally; any flag: issuer exists and its artifact is newer; outdated: config newer than artifact; expired: certificate present, expired, and the configuration would yield an unexpired one; missing: no certificate, or neither key nor request; changed: a stored hash exists and differs from the current one), with metadata and artifact fetched for the entity's alias and the issuer's for its Issuer; every other exit returns false"})
-	register(&Rule{Name: "PROV-PLAN", Floor: 6, Run: ruleProvPlan,
+	register(&Rule{Name: "PROV-PLAN", Floor: 3, Run: ruleProvPlan,
 		Doc: "planning: an entity is updated when its issuer's alias is in the set of planned aliases or the decision says so; every planned entity's alias is inserted into that set before its change is appended (so its subjects follow), the change carries the merged configuration of that entity; the work list is fed by the root entities and by the subscribers of the entity being processed only"})
 }
 
@@ -577,59 +577,64 @@ func ruleProvPlan(c *Ctx, r *Rep) {
 		r.Undecided("anchor:decision-function", "", "not found")
 		return
 	}
-	var plan *ssa.Function
-	var decCall *ssa.Call
-	for _, fn := range c.Funcs {
-		for _, ci := range callsIn(fn) {
-			if ci.Common().StaticCallee() == dec && fn != dec {
-				plan = fn
-				decCall = ci.(*ssa.Call)
-			}
-		}
-	}
+	plan, decCall, decSite, helpers := c.plannerOf(dec)
 	if plan == nil {
-		r.Undecided("anchor:planner", "", "the decision function has no caller")
+		r.Undecided("anchor:planner", "", "the decision function is not called from a work-list loop")
 		return
 	}
 	pv := c.newProv()
-	if call, ok := decCall.Call.Args[len(decCall.Call.Args)-1].(*ssa.Extract); ok {
+	// values of the decision's call expressed in the planner's frame (the call may sit in a helper of the loop)
+	lift := func(v ssa.Value) ssa.Value {
+		if prm, ok := v.(*ssa.Parameter); ok && decSite != ssa.CallInstruction(decCall) {
+			for i, q := range decCall.Parent().Params {
+				if q == prm && i < len(decSite.Common().Args) {
+					return decSite.Common().Args[i]
+				}
+			}
+		}
+		return v
+	}
+	cfgV := lift(decCall.Call.Args[len(decCall.Call.Args)-1])
+	if call, ok := cfgV.(*ssa.Extract); ok {
 		if mc, ok := call.Tuple.(*ssa.Call); ok {
 			pv.Opaque(mc.Call.StaticCallee())
 		}
 	}
 	fk := c.FuncKey(plan)
 	// merged configuration of the entity: the value handed to the decision function as its config
-	cfgO := pv.Origins(decCall.Call.Args[len(decCall.Call.Args)-1])
+	cfgO := pv.Origins(cfgV)
 	if len(cfgO) != 1 {
 		r.Undecided("shape:"+fk, c.Pos(decCall.Pos()), "merged configuration has several origins: "+strings.Join(cfgO, ","))
 		return
 	}
 	cfg := cfgO[0]
 	r.Check(strings.Contains(cfg, "validateAndMerge(") || strings.Contains(cfg, "Merge("), "decision-on-merged-config|"+fk, c.Pos(decCall.Pos()), "the decision sees the profile-merged configuration", cfg)
-	entity := pv.Origins(decCall.Call.Args[2])
+	entity := pv.Origins(lift(decCall.Call.Args[2]))
 	// the set of planned aliases: looked up by the entity's issuer, extended by the entity's own alias (what is done with
-	// the answers is PLAN-PATHS' business)
-	var lookup *ssa.Lookup
-	var update *ssa.MapUpdate
-	for _, b := range plan.Blocks {
-		for _, ins := range b.Instrs {
-			switch x := ins.(type) {
-			case *ssa.Lookup:
-				if _, isMap := x.X.Type().Underlying().(*types.Map); isMap {
-					lookup = x
+	// the answers is PLAN-PATHS' business). Lookup and insertion may sit in helpers of the loop.
+	var lookupKey, updateKey, lookupSet, updateSet []string
+	var lookupPos, updatePos token.Pos
+	pv.inFrames(plan, 1, func(g *ssa.Function) bool { return !helpers[g] }, func(fr frame) {
+		for _, b := range fr.fn.Blocks {
+			for _, ins := range b.Instrs {
+				switch x := ins.(type) {
+				case *ssa.Lookup:
+					if _, isMap := x.X.Type().Underlying().(*types.Map); isMap {
+						lookupKey, lookupSet, lookupPos = pv.here(x.Index), pv.here(x.X), x.Pos()
+					}
+				case *ssa.MapUpdate:
+					updateKey, updateSet, updatePos = pv.here(x.Key), pv.here(x.Map), x.Pos()
 				}
-			case *ssa.MapUpdate:
-				update = x
 			}
 		}
-	}
-	if lookup == nil || update == nil {
+	})
+	if lookupKey == nil || updateKey == nil {
 		r.Bad("propagation-set|"+fk, c.FnPos(plan), "a set of planned aliases that is consulted and extended", "lookup or update missing")
 		return
 	}
-	r.Check(lookup.X == update.Map, "propagation-same-set|"+fk, c.Pos(update.Pos()), "lookup and insertion use the same set", "ok")
-	expectSet(r, "propagation-lookup-key|"+fk, c.Pos(lookup.Pos()), pv.Origins(lookup.Index), "looked up: the entity's issuer alias", cfg+".Issuer")
-	expectSet(r, "propagation-insert-key|"+fk, c.Pos(update.Pos()), pv.Origins(update.Key), "inserted: the entity's own alias", cfg+".Alias")
+	r.Check(strings.Join(lookupSet, ",") == strings.Join(updateSet, ","), "propagation-same-set|"+fk, c.Pos(updatePos), "lookup and insertion use the same set", strings.Join(updateSet, ","))
+	expectSet(r, "propagation-lookup-key|"+fk, c.Pos(lookupPos), lookupKey, "looked up: the entity's issuer alias", cfg+".Issuer")
+	expectSet(r, "propagation-insert-key|"+fk, c.Pos(updatePos), updateKey, "inserted: the entity's own alias", cfg+".Alias")
 	// the change append
 	var appendCall *ssa.Call
 	for _, ci := range callsIn(plan) {
